@@ -3213,7 +3213,9 @@ func ruleLexAdvance(c *Ctx, r *Rep) {
 				r.Undecided(key, m.Pos(), "the test or the step was not found in the control-flow graph")
 				return true
 			}
-			isThis := func(nd ast.Node) bool { return nd.Pos() <= m.Pos() && m.End() <= nd.End() && nd.End()-nd.Pos() == m.End()-m.Pos() }
+			isThis := func(nd ast.Node) bool {
+				return nd.Pos() <= m.Pos() && m.End() <= nd.End() && nd.End()-nd.Pos() == m.End()-m.Pos()
+			}
 			isTest := func(nd ast.Node) bool { return nd == tl.b.Nodes[tl.i] }
 			// (1) nothing moves between the test and the step
 			if pathCrossing(tl, il, func(nd ast.Node) bool { return !isThis(nd) && moves(nd) }, isTest) {
@@ -3488,5 +3490,318 @@ func ruleBytePos(c *Ctx, r *Rep) {
 	}
 	if n == 0 {
 		r.OK("bytepos:none", token.NoPos, "no string is cut at a multiplied position")
+	}
+}
+
+// ---------------------------------------------------------------------------------------------------------------------
+// R-C10-saturated: arithmetic on an integer that may be a saturated conversion of a JSON number.
+
+func init() {
+	reg(&Rule{ID: "R-C10-saturated", Props: []string{"C10", "C08", "C03"}, Floor: 2,
+		Doc: "outside the arithmetic operators, an int obtained from a JSON number (toInt and its siblings saturate at MaxInt/MinInt) takes part in +, - or * only where the conditions that hold bound it on the side the operation can overflow: below a constant before something is added, above a constant (or zero) before something is subtracted, negative before a length is added",
+		Run: ruleSaturated})
+	addDecided("C10", " Arithmetic on saturating conversions of JSON numbers outside the operators is bounded on the overflowing side (R-C10-saturated).")
+}
+
+// satReviewed: sites whose bound comes from an argument the conditions do not spell out.
+var satReviewed = map[string]struct {
+	count int
+	why   string
+}{
+	"clampIndex:i += maximum": {1, "under i < 0, and maximum is a length at every call site (len(vs), a rune count): a negative number plus a length cannot overflow"},
+	"updateArrayIndex:i + 1":  {2, "the first under i < c with c = cap(v); the second where i is either j < len(v) (first arm) or was tested below 0x20000000 (last arm of the same chain)"},
+}
+
+func ruleSaturated(c *Ctx, r *Rep) {
+	info := c.Gojq.TypesInfo
+	guardScopes := intArithScopes(c)
+	inGuardScope := func(pos token.Pos) bool {
+		for _, b := range guardScopes {
+			if b.Pos() <= pos && pos < b.End() {
+				return true
+			}
+		}
+		return false
+	}
+	n := 0
+	reviewedSeen := map[string]int{}
+	reviewedPos := map[string][]token.Pos{}
+	// derived integers per function, propagated into the parameters of package functions they are passed to
+	nativeFile := func(fd *ast.FuncDecl) bool {
+		f := c.PhysFile(fd.Pos())
+		return f == "func.go" || f == "operator.go"
+	}
+	all := map[*ast.FuncDecl]map[types.Object]ast.Node{}
+	byObj := map[types.Object]*ast.FuncDecl{}
+	for _, fd := range c.Decls(c.Gojq) {
+		if !nativeFile(fd) {
+			continue
+		}
+		all[fd] = jsonDerivedInts(info, fd)
+		if o := info.Defs[fd.Name]; o != nil {
+			byObj[o] = fd
+		}
+	}
+	for changed := true; changed; {
+		changed = false
+		for fd, derived := range all {
+			ast.Inspect(fd.Body, func(m ast.Node) bool {
+				call, ok := m.(*ast.CallExpr)
+				if !ok {
+					return true
+				}
+				cal := callee(info, call)
+				target := byObj[cal]
+				if target == nil || target.Type.Params == nil {
+					return true
+				}
+				var params []types.Object
+				for _, f := range target.Type.Params.List {
+					for _, nm := range f.Names {
+						params = append(params, info.Defs[nm])
+					}
+				}
+				for i, a := range call.Args {
+					id, ok := unparen(a).(*ast.Ident)
+					if !ok || i >= len(params) || params[i] == nil {
+						continue
+					}
+					if _, ok := derived[info.ObjectOf(id)]; ok && isMachineInt(params[i].Type()) {
+						if _, have := all[target][params[i]]; !have {
+							all[target][params[i]] = call
+							changed = true
+						}
+					}
+				}
+				return true
+			})
+		}
+	}
+	for _, fd := range c.Decls(c.Gojq) {
+		derived := all[fd]
+		if len(derived) == 0 {
+			continue
+		}
+		// bounds the enclosing conditions give an object: upper (v < C / v <= C), lower (v > C / v >= C)
+		bounds := func(obj types.Object, nd ast.Node, stack []ast.Node) (lower, upper bool) {
+			isObj := func(e ast.Expr) bool { id, ok := unparen(e).(*ast.Ident); return ok && info.ObjectOf(id) == obj }
+			var scan func(e ast.Expr, pos bool)
+			scan = func(e ast.Expr, pos bool) {
+				e = unparen(e)
+				switch x := e.(type) {
+				case *ast.UnaryExpr:
+					if x.Op == token.NOT {
+						scan(x.X, !pos)
+					}
+				case *ast.BinaryExpr:
+					switch x.Op {
+					case token.LAND:
+						if pos {
+							scan(x.X, true)
+							scan(x.Y, true)
+						}
+					case token.LOR:
+						if !pos {
+							scan(x.X, false)
+							scan(x.Y, false)
+						}
+					case token.LSS, token.LEQ, token.GTR, token.GEQ, token.EQL:
+						op := x.Op
+						a, b := x.X, x.Y
+						if !isObj(a) && isObj(b) {
+							a, b = b, a
+							op = map[token.Token]token.Token{token.LSS: token.GTR, token.LEQ: token.GEQ, token.GTR: token.LSS, token.GEQ: token.LEQ, token.EQL: token.EQL}[op]
+						}
+						if !isObj(a) {
+							return
+						}
+						if !pos {
+							if op == token.EQL {
+								return
+							}
+							op = map[token.Token]token.Token{token.LSS: token.GEQ, token.LEQ: token.GTR, token.GTR: token.LEQ, token.GEQ: token.LSS}[op]
+						}
+						// the other side must be bounded itself: a constant, a length, or a capacity
+						okSide := false
+						if _, ok := constInt(info, b); ok {
+							okSide = true
+						}
+						if call, ok := unparen(b).(*ast.CallExpr); ok {
+							if f, ok := call.Fun.(*ast.Ident); ok && (f.Name == "len" || f.Name == "cap") {
+								okSide = true
+							}
+						}
+						if !okSide {
+							return
+						}
+						switch op {
+						case token.LSS, token.LEQ:
+							upper = true
+						case token.GTR, token.GEQ:
+							lower = true
+						case token.EQL:
+							lower, upper = true, true
+						}
+					}
+				}
+			}
+			for i, anc := range stack {
+				var child ast.Node = nd
+				if i+1 < len(stack) {
+					child = stack[i+1]
+				}
+				switch a := anc.(type) {
+				case *ast.IfStmt:
+					if child == ast.Node(a.Body) {
+						scan(a.Cond, true)
+					} else if a.Else != nil && child == ast.Node(a.Else) {
+						scan(a.Cond, false)
+					}
+				case *ast.BinaryExpr:
+					if child == ast.Node(a.Y) {
+						if a.Op == token.LAND {
+							scan(a.X, true)
+						} else if a.Op == token.LOR {
+							scan(a.X, false)
+						}
+					}
+				}
+				var list []ast.Stmt
+				switch b := anc.(type) {
+				case *ast.BlockStmt:
+					list = b.List
+				case *ast.CaseClause:
+					list = b.Body
+				}
+				for _, st := range list {
+					if ast.Node(st) == child {
+						break
+					}
+					if ifs, ok := st.(*ast.IfStmt); ok && ifs.Else == nil && len(ifs.Body.List) > 0 {
+						switch ifs.Body.List[len(ifs.Body.List)-1].(type) {
+						case *ast.ReturnStmt, *ast.BranchStmt:
+							scan(ifs.Cond, false)
+						}
+					}
+				}
+			}
+			return
+		}
+		walkStack(fd.Body, func(m ast.Node, stack []ast.Node) bool {
+			var x, y ast.Expr
+			var op token.Token
+			switch b := m.(type) {
+			case *ast.BinaryExpr:
+				if b.Op != token.ADD && b.Op != token.SUB && b.Op != token.MUL {
+					return true
+				}
+				x, y, op = b.X, b.Y, b.Op
+			case *ast.AssignStmt:
+				if len(b.Lhs) != 1 || len(b.Rhs) != 1 {
+					return true
+				}
+				switch b.Tok {
+				case token.ADD_ASSIGN:
+					op = token.ADD
+				case token.SUB_ASSIGN:
+					op = token.SUB
+				case token.MUL_ASSIGN:
+					op = token.MUL
+				default:
+					return true
+				}
+				x, y = b.Lhs[0], b.Rhs[0]
+			case *ast.IncDecStmt:
+				x = b.X
+				op = token.ADD
+				if b.Tok == token.DEC {
+					op = token.SUB
+				}
+			default:
+				return true
+			}
+			if inGuardScope(m.Pos()) {
+				return true
+			}
+			if t := info.TypeOf(x); t == nil || !isMachineInt(t) {
+				return true
+			}
+			for side, e := range []ast.Expr{x, y} {
+				if e == nil {
+					continue
+				}
+				id, ok := unparen(e).(*ast.Ident)
+				if !ok {
+					continue
+				}
+				obj := info.ObjectOf(id)
+				if _, ok := derived[obj]; !ok {
+					continue
+				}
+				n++
+				key := fmt.Sprintf("saturated:%s:%s", declKey(fd), c.Src(m))
+				lower, upper := bounds(obj, m, stack)
+				other := y
+				if side == 1 {
+					other = x
+				}
+				nonNeg := func(e ast.Expr) bool { // the other operand cannot be negative
+					if e == nil {
+						return true // ++ / --
+					}
+					if k, ok := constInt(info, e); ok {
+						return k >= 0
+					}
+					if call, ok := unparen(e).(*ast.CallExpr); ok {
+						if f, ok := call.Fun.(*ast.Ident); ok && (f.Name == "len" || f.Name == "cap") {
+							return true
+						}
+					}
+					return false
+				}
+				good := false
+				why := ""
+				switch {
+				case lower && upper:
+					good, why = true, "bounded on both sides"
+				case op == token.ADD && nonNeg(other) && upper:
+					good, why = true, "bounded above before a non-negative amount is added"
+				case op == token.SUB && side == 0 && nonNeg(other) && lower:
+					good, why = true, "bounded below before a non-negative amount is subtracted"
+				}
+				if !good {
+					rk := declKey(fd) + ":" + c.Src(m)
+					if _, ok := satReviewed[rk]; ok {
+						reviewedSeen[rk]++
+						reviewedPos[rk] = append(reviewedPos[rk], m.Pos())
+						return true // decided per key after the walk
+					}
+				}
+				if good {
+					r.OK(key, m.Pos(), "%s: %s is %s", c.Src(m), id.Name, why)
+				} else {
+					r.Bad(key, m.Pos(), "%s in %s computes with %s, which holds a JSON number converted with saturation (1e300 and 9223372036854775807 both become MaxInt): the conditions that hold here do not bound it on the side this operation overflows (lower bound: %v, upper bound: %v) — `i + 1` wraps to MinInt and slips under a size test", c.Src(m), declKey(fd), id.Name, lower, upper)
+				}
+			}
+			return true
+		})
+	}
+	for rk, w := range satReviewed {
+		ps := reviewedPos[rk]
+		if len(ps) == 0 {
+			continue
+		}
+		var at []string
+		for _, p := range ps {
+			at = append(at, c.Pos(p))
+		}
+		if len(ps) <= w.count {
+			r.OK("saturated:"+rk, ps[0], "enumerated (%d sites: %s) — %s", len(ps), strings.Join(at, ", "), w.why)
+		} else {
+			r.Bad("saturated:"+rk, ps[0], "%d occurrences of this computation on a saturated JSON number are not bounded by the conditions around them (%s); %d are enumerated (%s): one of them is new and unguarded — `i + 1` on MaxInt wraps to MinInt and slips under a size test", len(ps), strings.Join(at, ", "), w.count, w.why)
+		}
+	}
+	if n == 0 {
+		r.Undecided("saturated:census", token.NoPos, "no arithmetic on a JSON-derived integer found outside the operators")
 	}
 }
